@@ -410,6 +410,22 @@ def mon_C17r(run):
             pass
 
 
+def mon_C17box(run):
+    """Every point handed on for evaluation lies inside the (internal) hard box: judged on the internal coordinates the
+    logger recorded, because the target only ever sees the clamped original-space point."""
+    b = run.bads
+    if b is None or not hasattr(b, "function_logger") or not hasattr(b, "var_transf"):
+        return
+    fl, vt = b.function_logger, b.var_transf
+    n = fl.Xn + 1
+    if n <= 0:
+        return
+    X = fl.X[:n]
+    bad = np.where(np.any(X < vt.lb, axis=1) | np.any(X > vt.ub, axis=1))[0]
+    if len(bad):
+        run.v("C17", "a point outside the hard box was handed on for evaluation", "evaluated-outside-box", (int(bad[0]), X[bad[0]].tolist()))
+
+
 def mon_C18r(run):
     for s in run.searches:
         if s.get("c1") is not None and s["c1"] - s["c0"] > 1:
